@@ -7,6 +7,7 @@ ID=$1; PROP=$2; shift 2
 WT=/tmp/seedrun_${ID}_$$
 cd /verif
 git -C /repo worktree add -q --detach $WT HEAD || exit 3
+[ -f $WT/Cargo.lock ] || cp /repo/Cargo.lock $WT/
 git -C $WT apply /verif/seeded/$ID/patch.diff || { echo "seed=$ID cannot apply"; git -C /repo worktree remove --force $WT; exit 3; }
 VERIF_REPO=$WT ./check $PROP --tier quick "$@" > /verif/seeded/$ID/check_$PROP.log 2>&1; RC=$?
 git -C /repo worktree remove --force $WT
